@@ -70,7 +70,7 @@ Proof.
   - destruct (sd_dequeue_total thr miu d) as (d' & r & E). rewrite E. cbn [bind]. eauto.
 Qed.
 
-Lemma first_pass_total thr b miu l : exists l' r, first_pass thr b miu l = Ok (l', r).
+Lemma first_pass_total c thr b miu l : exists l' r, first_pass c thr b miu l = Ok (l', r).
 Proof.
   induction l as [|o l IH]; cbn [first_pass]; [eauto|].
   destruct IH as (l' & r & E).
@@ -80,37 +80,37 @@ Proof.
   - rewrite E. cbn [bind]. eauto.
 Qed.
 
-Lemma phase1_total thr miu l : exists l' r, phase1 thr miu l = Ok (l', r).
+Lemma phase1_total c thr miu l : exists l' r, phase1 c thr miu l = Ok (l', r).
 Proof.
-  unfold phase1. destruct (first_pass_total thr true miu l) as (l1 & y & E). rewrite E. cbn [bind].
+  unfold phase1. destruct (first_pass_total c thr true miu l) as (l1 & y & E). rewrite E. cbn [bind].
   destruct y; [eauto|]. apply first_pass_total.
 Qed.
 
-Lemma agg_for_total thr M icv l : forall agf miu dn, exists l' agf' miu' dn',
-  agg_for thr M icv l agf miu dn = Ok (l', agf', miu', dn') /\
+Lemma agg_for_total c thr M icv l : forall agf miu dn, exists l' agf' miu' dn',
+  agg_for c thr M icv l agf miu dn = Ok (l', agf', miu', dn') /\
   ((agf' = agf /\ miu' = miu /\ dn' = dn) \/
    (dn' = false /\ miu' = M - agf_len agf' - 3 /\ agf_len agf + 4 <= agf_len agf')).
 Proof.
   induction l as [|o l IH]; intros agf miu dn; cbn [agg_for]; [do 4 eexists; split; [reflexivity|left; auto]|].
   destruct (obj_dequeue_total thr miu icv o) as (o' & y & Eo). rewrite Eo. cbn [bind].
   destruct y as [p|].
-  - pose proof (agf_len_snoc agf p) as Hs. pose proof (plen_ge2 p) as Hp.
-    destruct (M - agf_len (agf ++ [p]) - 3 <? 0) eqn:Em.
+  - set (q := maybe_encrypt c p). pose proof (agf_len_snoc agf q) as Hs. pose proof (plen_ge2 q) as Hp.
+    destruct (M - agf_len (agf ++ [q]) - 3 <? 0) eqn:Em.
     + do 4 eexists. split; [reflexivity|]. right. repeat split; lia.
-    + destruct (IH (agf ++ [p]) (M - agf_len (agf ++ [p]) - 3) false) as (l' & a & m & d & E & H).
+    + destruct (IH (agf ++ [q]) (M - agf_len (agf ++ [q]) - 3) false) as (l' & a & m & d & E & H).
       rewrite E. cbn [bind]. do 4 eexists. split; [reflexivity|]. right.
       destruct H as [(-> & -> & ->)|(-> & -> & H)]; repeat split; lia.
   - destruct (IH agf miu dn) as (l' & a & m & d & E & H). rewrite E. cbn [bind].
     do 4 eexists. split; [reflexivity|exact H].
 Qed.
 
-Lemma agg_loop_total v M icv fuel : forall l agf miu,
+Lemma agg_loop_total c v M icv fuel : forall l agf miu,
   (0 < fuel)%nat -> M - agf_len agf < Z.of_nat fuel ->
-  exists l' agf' miu', agg_loop fuel v M icv l agf miu = Ok (l', agf', miu').
+  exists l' agf' miu', agg_loop fuel c v M icv l agf miu = Ok (l', agf', miu').
 Proof.
   induction fuel as [|f IH]; intros l agf miu Hf Hm; [lia|]. cbn [agg_loop].
   destruct (agf_guard v && (miu <? 0)); [eauto|].
-  destruct (agg_for_total (sd_thr v) M icv l agf miu true) as (l' & a & m & d & E & H).
+  destruct (agg_for_total c (sd_thr v) M icv l agf miu true) as (l' & a & m & d & E & H).
   rewrite E. cbn [bind].
   destruct ((m <? 0) || d) eqn:Ec; [eauto|].
   apply orb_false_iff in Ec. destruct Ec as [Em Ed].
@@ -121,24 +121,24 @@ Qed.
 Theorem collect_v_total v c st : exists st' f, collect_v v c st = Ok (st', f).
 Proof.
   unfold collect_v.
-  destruct (phase1_total (sd_thr v) (send_miu c) st) as (l1 & y & E). rewrite E. cbn [bind].
+  destruct (phase1_total c (sd_thr v) (send_miu c) st) as (l1 & y & E). rewrite E. cbn [bind].
   assert (Hrest : forall l2 p, exists st' f,
     (if negb (send_agf c) then Ok (l2, FOne p) else
-       do z <- agg_loop (collect_fuel c) v (send_miu c) 0 l2 [p] (send_miu c - agf_len [p] - 3);
+       do z <- agg_loop (collect_fuel c) c v (send_miu c) (cfg_icv c) l2 [p] (send_miu c - agf_len [p] - 3);
        let '(l3, agf1, miu1) := z in
        let '(l4, agf2) := if miu1 >=? 0 then ack_for (send_miu c) l3 agf1 else (l3, agf1) in
        match agf2 with [] => Crash IndexErr | [q] => Ok (l4, FOne q) | _ => Ok (l4, FAgf agf2) end) = Ok (st', f)).
   { intros l2 p. destruct (negb (send_agf c)); [eauto|].
-    destruct (agg_loop_total v (send_miu c) 0 (collect_fuel c) l2 [p] (send_miu c - agf_len [p] - 3))
+    destruct (agg_loop_total c v (send_miu c) (cfg_icv c) (collect_fuel c) l2 [p] (send_miu c - agf_len [p] - 3))
       as (l3 & agf1 & miu1 & El).
     { unfold collect_fuel. lia. }
     { unfold collect_fuel, agf_len. rewrite agf_info_cons, agf_info_nil. pose proof (plen_ge2 p). lia. }
     rewrite El. cbn [bind].
     (* the aggregate is never empty: it starts with p and only grows *)
-    assert (Hne : forall fuel l a m l' a' m', a <> [] -> agg_loop fuel v (send_miu c) 0 l a m = Ok (l', a', m') -> a' <> []).
+    assert (Hne : forall fuel l a m l' a' m', a <> [] -> agg_loop fuel c v (send_miu c) (cfg_icv c) l a m = Ok (l', a', m') -> a' <> []).
     { clear. induction fuel as [|f IH]; intros l a m l' a' m' Ha H; cbn [agg_loop] in H; [discriminate|].
       destruct (agf_guard v && (m <? 0)); [inversion H; subst; exact Ha|].
-      destruct (agg_for_total (sd_thr v) (send_miu c) 0 l a m true) as (l1 & a1 & m1 & d1 & E & Hd).
+      destruct (agg_for_total c (sd_thr v) (send_miu c) (cfg_icv c) l a m true) as (l1 & a1 & m1 & d1 & E & Hd).
       rewrite E in H. cbn [bind] in H.
       assert (Ha1 : a1 <> []).
       { destruct Hd as [(-> & _)|(_ & _ & Hd)]; [exact Ha|]. intros ->. unfold agf_len in Hd. rewrite agf_info_nil in Hd.
@@ -167,49 +167,66 @@ Corollary collect_never_hangs c st : collect c st <> Hang.
 Proof. destruct (collect_v_total fixed c st) as (st' & f & E). unfold collect. rewrite E. discriminate. Qed.
 
 (* ================================================================== Part B: invariant and emission *)
+(* size a UI / I PDU will have once it is encrypted with an ICV of icv octets *)
+Definition esz (icv : Z) (p : pdu) : Z := len (body p) + (if is_ui_i p then icv else 0).
+(* the information field collect() may return: the remote MIU; a single encrypted UI / I PDU carries the ICV on top
+   ("the receiver must accept them with complete MIU plus ICV size", comment in collect) *)
+Definition frame_limit (c : cfg) (f : frame) : Z :=
+  send_miu c + match f with FOne p => if is_ui_i p then cfg_icv c else 0 | _ => 0 end.
+(* what the theorems assume of the cipher object: encrypt lengthens the data by icv_size octets *)
+Definition cipher_ok (c : cfg) : Prop :=
+  0 <= cfg_icv c /\ forall k, sec c = Some k -> forall a d, len (encrypt k a d) = len d + icv_size k.
+
 Section Inv.
-Variable P : pdu -> Prop.
+Variable P : pdu -> Prop.            (* holds of every queued PDU *)
+Variable Q : pdu -> Prop.            (* holds of every PDU put into a frame (after encryption) *)
 Variable G : skind -> sock -> Prop.
+Variable c : cfg.
 Hypothesis P_nr : forall s p, G Dlc s -> pt p = PT_I -> P p -> P (set_nr p (rack s)).
 Hypothesis P_ack : forall k s, G k s -> P (ack s).
 Hypothesis P_snl : forall rs qs, P (snl_pdu rs qs).
 Hypothesis G_stable : forall k s s', peer s' = peer s -> addr s' = addr s -> busy s' = busy s -> smiu s' = smiu s ->
   (rack s' = rack s \/ rack s' = (rack s + confs s) mod 16) -> G k s -> G k s'.
+Hypothesis Hcipher : cipher_ok c.
+Hypothesis Q_enc : forall p, P p -> Q (maybe_encrypt c p).
+Hypothesis Q_plain : forall p, P p -> is_ui_i p = false -> Q p.
 
-Definition small (p : pdu) : Prop := P p /\ plen p <= 3.
+Definition small (p : pdu) : Prop := P p /\ plen p <= 3 /\ is_ui_i p = false.
 Definition sock_inv (k : skind) (s : sock) : Prop := Forall P (sq s) /\ G k s /\ (k = Raw -> sq s = []).
 Definition sap_inv (a : sap) : Prop := Forall (sock_inv (skd a)) (socks a) /\ Forall small (slist a).
 Definition sd_inv (d : sd) : Prop := Forall small (dmpdu d).
 Definition obj_inv (o : sapobj) : Prop := match o with SapN a => sap_inv a | SapD d => sd_inv d end.
-(* what a dequeue with budget miu may hand out *)
-Definition emitted (miu : Z) (p : pdu) : Prop := P p /\ (len (body p) <= miu \/ plen p <= 3).
-Definition isack (p : pdu) : Prop := P p /\ plen p = 3.
+(* what a dequeue with budget miu and ICV allowance icv may hand out *)
+Definition emitted (icv miu : Z) (p : pdu) : Prop := P p /\ (esz icv p <= miu \/ (plen p <= 3 /\ is_ui_i p = false)).
+Definition isack (p : pdu) : Prop := P p /\ plen p = 3 /\ is_ui_i p = false.
 
 Lemma ack_plen s : plen (ack s) = 3.
 Proof. unfold ack, plen, hsize, PT_RNR, PT_RR. cbn [pt body]. destruct (busy s); reflexivity. Qed.
+Lemma ack_not_ui_i s : is_ui_i (ack s) = false.
+Proof. unfold ack, is_ui_i, PT_RNR, PT_RR. cbn [pt]. destruct (busy s); reflexivity. Qed.
 
-Lemma tco_dequeue_spec m icv q q' r : 0 <= icv -> Forall P q -> tco_dequeue (Some m) icv q = (q', r) ->
-  Forall P q' /\ match r with Some p => P p /\ len (body p) <= m | None => q' = q end.
+Lemma tco_dequeue_spec m icv q q' r : Forall P q -> tco_dequeue (Some m) icv q = (q', r) ->
+  Forall P q' /\ match r with Some p => P p /\ esz icv p <= m | None => q' = q end.
 Proof.
-  intros Hi Hq H. destruct q as [|p q0]; cbn [tco_dequeue] in H; [inversion H; subst; auto|].
+  intros Hq H. destruct q as [|p q0]; cbn [tco_dequeue] in H; [inversion H; subst; auto|].
   inversion Hq as [|? ? Hp Hq0]; subst.
   destruct ((if is_ui_i p then plen p + icv else plen p) - hsize p >? m) eqn:E; inversion H; subst; [auto|].
-  split; [exact Hq0|]. split; [exact Hp|]. unfold plen in E. destruct (is_ui_i p); lia.
+  split; [exact Hq0|]. split; [exact Hp|]. unfold plen in E. unfold esz. destruct (is_ui_i p); lia.
 Qed.
 
 Lemma G_ackstate k s : G k s -> G k (ackstate s).
 Proof. apply G_stable; cbn; auto. Qed.
 
-Lemma dlc_dequeue_spec miu icv s s' r : 0 <= icv -> sock_inv Dlc s -> dlc_dequeue miu icv s = (s', r) ->
-  sock_inv Dlc s' /\ forall p, r = Some p -> emitted miu p.
+Lemma dlc_dequeue_spec miu icv s s' r : sock_inv Dlc s -> dlc_dequeue miu icv s = (s', r) ->
+  sock_inv Dlc s' /\ forall p, r = Some p -> emitted icv miu p.
 Proof.
-  intros Hi (Hq & Hg & _) H. unfold dlc_dequeue in H.
+  intros (Hq & Hg & _) H. unfold dlc_dequeue in H.
   destruct (est s && negb (Bool.eqb (busy_sent s) (busy s))).
   { inversion H; subst. assert (Hg1 : G Dlc (with_busy_sent s (busy s))) by (revert Hg; apply G_stable; cbn; auto).
     split; [repeat split; [exact Hq|exact Hg1|discriminate]|].
-    intros p [= <-]. split; [eapply P_ack, Hg1|right; rewrite ack_plen; lia]. }
+    intros p [= <-]. split; [eapply P_ack, Hg1|right; split; [rewrite ack_plen; lia|apply ack_not_ui_i]]. }
   destruct (tco_dequeue (Some miu) icv (sq s)) as [q' o] eqn:Et.
-  destruct (tco_dequeue_spec _ _ _ _ _ Hi Hq Et) as (Hq' & Ho).
+  destruct (tco_dequeue_spec _ _ _ _ _ Hq Et) as (Hq' & Ho).
   destruct o as [p|].
   - destruct Ho as (Hp & Hl).
     set (s1 := with_sq s q') in *.
@@ -231,43 +248,43 @@ Proof.
   - subst q'. destruct (est s && negb (confs s =? 0) && (recv_window_slots s =? 0)).
     + inversion H; subst. pose proof (G_ackstate _ s Hg) as Hg1.
       split; [repeat split; [exact Hq|exact Hg1|discriminate]|].
-      intros p [= <-]. split; [eapply P_ack, Hg1|right; rewrite ack_plen; lia].
+      intros p [= <-]. split; [eapply P_ack, Hg1|right; split; [rewrite ack_plen; lia|apply ack_not_ui_i]].
     + inversion H; subst. split; [repeat split; [exact Hq|exact Hg|discriminate]|]. intros p [=].
 Qed.
 
-Lemma sock_dequeue_spec k miu icv s s' r : 0 <= icv -> sock_inv k s -> sock_dequeue k miu icv s = (s', r) ->
-  sock_inv k s' /\ forall p, r = Some p -> emitted miu p.
+Lemma sock_dequeue_spec k miu icv s s' r : sock_inv k s -> sock_dequeue k miu icv s = (s', r) ->
+  sock_inv k s' /\ forall p, r = Some p -> emitted icv miu p.
 Proof.
-  intros Hi I H. destruct k; cbn [sock_dequeue] in H.
+  intros I H. destruct k; cbn [sock_dequeue] in H.
   - destruct I as (Hq & Hg & Hr). rewrite (Hr eq_refl) in H. cbn [tco_dequeue] in H. inversion H; subst.
     split; [|intros p [=]]. split; [apply Forall_nil|]. split; [|reflexivity]. revert Hg. apply G_stable; cbn; auto.
   - destruct I as (Hq & Hg & _). destruct (tco_dequeue (Some miu) icv (sq s)) as [q' o] eqn:Et.
-    destruct (tco_dequeue_spec _ _ _ _ _ Hi Hq Et) as (Hq' & Ho). inversion H; subst.
+    destruct (tco_dequeue_spec _ _ _ _ _ Hq Et) as (Hq' & Ho). inversion H; subst.
     split; [repeat split; [exact Hq'| |discriminate]; revert Hg; apply G_stable; cbn; auto|].
     intros p ->. destruct Ho as [A B]. split; [exact A|left; exact B].
   - eapply dlc_dequeue_spec; eauto.
 Qed.
 
-Lemma socks_dequeue_spec k miu icv l : forall l' r, 0 <= icv -> Forall (sock_inv k) l ->
-  socks_dequeue k miu icv l = (l', r) -> Forall (sock_inv k) l' /\ forall p, r = Some p -> emitted miu p.
+Lemma socks_dequeue_spec k miu icv l : forall l' r, Forall (sock_inv k) l ->
+  socks_dequeue k miu icv l = (l', r) -> Forall (sock_inv k) l' /\ forall p, r = Some p -> emitted icv miu p.
 Proof.
-  induction l as [|s l IH]; intros l' r Hi I H; cbn [socks_dequeue] in H.
+  induction l as [|s l IH]; intros l' r I H; cbn [socks_dequeue] in H.
   - inversion H; subst. split; [constructor|intros p [=]].
   - inversion I as [|? ? Is Il]; subst.
     destruct (sock_dequeue k miu icv s) as [s' o] eqn:Es.
-    destruct (sock_dequeue_spec _ _ _ _ _ _ Hi Is Es) as (Is' & Ho).
+    destruct (sock_dequeue_spec _ _ _ _ _ _ Is Es) as (Is' & Ho).
     destruct o as [p|].
     + inversion H; subst. split; [constructor; assumption|exact Ho].
     + destruct (socks_dequeue k miu icv l) as [r' o'] eqn:Er. inversion H; subst.
-      destruct (IH _ _ Hi Il eq_refl) as (A & B). split; [constructor; assumption|exact B].
+      destruct (IH _ _ Il eq_refl) as (A & B). split; [constructor; assumption|exact B].
 Qed.
 
-Lemma sap_dequeue_spec miu icv a a' r : 0 <= icv -> sap_inv a -> sap_dequeue miu icv a = (a', r) ->
-  sap_inv a' /\ forall p, r = Some p -> emitted miu p.
+Lemma sap_dequeue_spec miu icv a a' r : sap_inv a -> sap_dequeue miu icv a = (a', r) ->
+  sap_inv a' /\ forall p, r = Some p -> emitted icv miu p.
 Proof.
-  intros Hi (Is & Il) H. unfold sap_dequeue in H.
+  intros (Is & Il) H. unfold sap_dequeue in H.
   destruct (socks_dequeue (skd a) miu icv (socks a)) as [l' o] eqn:Es.
-  destruct (socks_dequeue_spec _ _ _ _ _ _ Hi Is Es) as (Is' & Ho).
+  destruct (socks_dequeue_spec _ _ _ _ _ _ Is Es) as (Is' & Ho).
   destruct o as [p|].
   - inversion H; subst. split; [split; assumption|exact Ho].
   - destruct (slist a) as [|p r0] eqn:El; inversion H; subst.
@@ -322,22 +339,25 @@ Proof. unfold snl_pdu. cbn [body]. rewrite len_app, len_concat_req, len_concat_r
 Lemma snl_plen rs qs : plen (snl_pdu rs qs) = 2 + req_size qs + 4 * len rs.
 Proof. unfold plen. rewrite snl_body_len. change (hsize (snl_pdu rs qs)) with 2. lia. Qed.
 
-Lemma sd_dequeue_spec miu d d' r : sd_inv d -> sd_dequeue 4 miu d = Ok (d', r) ->
-  sd_inv d' /\ forall p, r = Some p -> emitted miu p.
+Lemma snl_esz icv rs qs : esz icv (snl_pdu rs qs) = req_size qs + 4 * len rs.
+Proof. unfold esz. rewrite snl_body_len. change (is_ui_i (snl_pdu rs qs)) with false. cbv iota. lia. Qed.
+
+Lemma sd_dequeue_spec icv miu d d' r : sd_inv d -> sd_dequeue 4 miu d = Ok (d', r) ->
+  sd_inv d' /\ forall p, r = Some p -> emitted icv miu p.
 Proof.
   intros I H. unfold sd_dequeue in H.
   assert (Hsnl : (let '(t, rest, m1) := take_res 4 (sdres d) miu in
      do x <- req_loop (length (sdreq d)) (sdreq d) [] m1;
      let '(tq, restq, _) := x in Ok (mkSd rest restq (dmpdu d), Some (snl_pdu t tq))) = Ok (d', r) ->
-     sd_inv d' /\ forall p, r = Some p -> emitted miu p).
+     sd_inv d' /\ forall p, r = Some p -> emitted icv miu p).
   { clear H. intro H. destruct (take_res 4 (sdres d) miu) as [[t rest] m1] eqn:Et.
     destruct (req_loop (length (sdreq d)) (sdreq d) [] m1) as [[[tq rq] m2]| | |] eqn:Eq; cbn [bind] in H; try discriminate.
     inversion H; subst. split; [exact I|]. intros p [= <-]. split; [apply P_snl|].
     destruct (take_res_spec _ _ _ _ _ Et) as (A & B). destruct (req_loop_spec _ _ _ _ _ _ _ Eq) as (C & D & E).
-    change (req_size []) with 0 in C. rewrite snl_body_len, snl_plen.
+    change (req_size []) with 0 in C. rewrite snl_esz, snl_plen.
     pose proof (req_size_nonneg tq). pose proof (len_nonneg t).
     destruct D as [->|D].
-    - change (req_size []) with 0 in *. destruct B as [->|B]; [right; lnil; lia|left; lia].
+    - change (req_size []) with 0 in *. destruct B as [->|B]; [right; split; [lnil; lia|reflexivity]|left; lia].
     - left. lia. }
   destruct (sdres d) as [|r0 rs] eqn:Er; [destruct (sdreq d) as [|q0 qs] eqn:Eq|]; try (apply Hsnl; exact H).
   destruct (dmpdu d) as [|p r1] eqn:Ed.
@@ -348,10 +368,10 @@ Proof.
     + split; [exact I|intros p0 [=]].
 Qed.
 
-Lemma obj_dequeue_spec miu icv o o' r : 0 <= icv -> obj_inv o -> obj_dequeue 4 miu icv o = Ok (o', r) ->
-  obj_inv o' /\ forall p, r = Some p -> emitted miu p.
+Lemma obj_dequeue_spec miu icv o o' r : obj_inv o -> obj_dequeue 4 miu icv o = Ok (o', r) ->
+  obj_inv o' /\ forall p, r = Some p -> emitted icv miu p.
 Proof.
-  intros Hi I H. destruct o as [a|d]; cbn [obj_dequeue] in H.
+  intros I H. destruct o as [a|d]; cbn [obj_dequeue] in H.
   - destruct (sap_dequeue miu icv a) as [a' r'] eqn:E. inversion H; subst. eapply sap_dequeue_spec; eauto.
   - destruct (sd_dequeue 4 miu d) as [[d' r']| | |] eqn:E; cbn [bind] in H; try discriminate. inversion H; subst.
     eapply sd_dequeue_spec; eauto.
@@ -364,7 +384,7 @@ Proof.
   intros (Hq & Hg & Hr) H. unfold dlc_sendack in H.
   destruct (est s && negb (confs s =? 0) && negb (rcnt s =? rack s)); inversion H; subst.
   - pose proof (G_ackstate _ s Hg) as Hg1. split; [repeat split; [exact Hq|exact Hg1|exact Hr]|].
-    intros p [= <-]. split; [eapply P_ack, Hg1|apply ack_plen].
+    intros p [= <-]. split; [eapply P_ack, Hg1|split; [apply ack_plen|apply ack_not_ui_i]].
   - split; [repeat split; assumption|intros p [=]].
 Qed.
 
@@ -389,30 +409,60 @@ Proof.
   - inversion H; subst. split; [exact I|intros p [=]].
 Qed.
 
-(* ---- passes over the SAP table ---- *)
-Lemma first_pass_spec b miu l : forall l' r, Forall obj_inv l -> first_pass 4 b miu l = Ok (l', r) ->
-  Forall obj_inv l' /\ forall p, r = Some p -> emitted miu p.
+(* ---- encryption of a dequeued PDU ---- *)
+Lemma enc_ui_i p : is_ui_i (maybe_encrypt c p) = is_ui_i p.
+Proof. unfold maybe_encrypt. destruct (sec c); [|reflexivity]. destruct (is_ui_i p) eqn:E; [|exact E]. exact E. Qed.
+Lemma enc_hsize p : hsize (maybe_encrypt c p) = hsize p.
+Proof. unfold maybe_encrypt. destruct (sec c); [|reflexivity]. destruct (is_ui_i p); reflexivity. Qed.
+Lemma enc_body p : len (body (maybe_encrypt c p)) = esz (cfg_icv c) p.
 Proof.
-  induction l as [|o l IH]; intros l' r I H; cbn [first_pass] in H.
+  destruct Hcipher as [_ Hl]. unfold maybe_encrypt, esz, cfg_icv. destruct (sec c) as [k|] eqn:Es.
+  - destruct (is_ui_i p); cbn [body]; [apply Hl; reflexivity|lia].
+  - destruct (is_ui_i p); lia.
+Qed.
+(* a PDU of the first loop (dequeued with icv_size=0), then encrypted *)
+Definition first_ok (miu : Z) (p : pdu) : Prop :=
+  Q p /\ len (body p) <= miu + (if is_ui_i p then cfg_icv c else 0).
+Lemma enc_first miu p : 1 <= miu -> emitted 0 miu p -> first_ok miu (maybe_encrypt c p).
+Proof.
+  intros Hm (Hp & H). split; [apply Q_enc, Hp|]. rewrite enc_body, enc_ui_i. unfold esz in *.
+  destruct H as [H|[H Hu]].
+  - destruct (is_ui_i p); lia.
+  - rewrite Hu. unfold plen in H. pose proof (hsize_range p). lia.
+Qed.
+(* a PDU of the aggregation loop (dequeued with the ICV allowance), then encrypted *)
+Lemma enc_agg miu p : emitted (cfg_icv c) miu p ->
+  Q (maybe_encrypt c p) /\ (len (body (maybe_encrypt c p)) <= miu \/ plen (maybe_encrypt c p) <= 3).
+Proof.
+  intros (Hp & H). split; [apply Q_enc, Hp|]. destruct H as [H|[H Hu]].
+  - left. rewrite enc_body. exact H.
+  - right. unfold plen in *. rewrite enc_hsize, enc_body. unfold esz. rewrite Hu. lia.
+Qed.
+
+(* ---- passes over the SAP table ---- *)
+Lemma first_pass_spec b miu l : forall l' r, 1 <= miu -> Forall obj_inv l -> first_pass c 4 b miu l = Ok (l', r) ->
+  Forall obj_inv l' /\ forall p, r = Some p -> first_ok miu p.
+Proof.
+  induction l as [|o l IH]; intros l' r Hm I H; cbn [first_pass] in H.
   - inversion H; subst. split; [constructor|intros p [=]].
   - inversion I as [|? ? Io Il]; subst.
     destruct (Bool.eqb (skind_eqb (obj_mode o) Raw) b).
     + destruct (obj_dequeue 4 miu 0 o) as [[o' y]| | |] eqn:Eo; cbn [bind] in H; try discriminate.
-      destruct (obj_dequeue_spec _ _ _ _ _ (Z.le_refl 0) Io Eo) as (Io' & Hy).
+      destruct (obj_dequeue_spec _ _ _ _ _ Io Eo) as (Io' & Hy).
       destruct y as [p|].
-      * inversion H; subst. split; [constructor; assumption|exact Hy].
-      * destruct (first_pass 4 b miu l) as [[r' y']| | |] eqn:Er; cbn [bind] in H; try discriminate.
-        inversion H; subst. destruct (IH _ _ Il eq_refl) as (A & B). split; [constructor; assumption|exact B].
-    + destruct (first_pass 4 b miu l) as [[r' y']| | |] eqn:Er; cbn [bind] in H; try discriminate.
-      inversion H; subst. destruct (IH _ _ Il eq_refl) as (A & B). split; [constructor; assumption|exact B].
+      * inversion H; subst. split; [constructor; assumption|]. intros p0 [= <-]. apply enc_first; auto.
+      * destruct (first_pass c 4 b miu l) as [[r' y']| | |] eqn:Er; cbn [bind] in H; try discriminate.
+        inversion H; subst. destruct (IH _ _ Hm Il eq_refl) as (A & B). split; [constructor; assumption|exact B].
+    + destruct (first_pass c 4 b miu l) as [[r' y']| | |] eqn:Er; cbn [bind] in H; try discriminate.
+      inversion H; subst. destruct (IH _ _ Hm Il eq_refl) as (A & B). split; [constructor; assumption|exact B].
 Qed.
 
-Lemma phase1_spec miu l l' r : Forall obj_inv l -> phase1 4 miu l = Ok (l', r) ->
-  Forall obj_inv l' /\ forall p, r = Some p -> emitted miu p.
+Lemma phase1_spec miu l l' r : 1 <= miu -> Forall obj_inv l -> phase1 c 4 miu l = Ok (l', r) ->
+  Forall obj_inv l' /\ forall p, r = Some p -> first_ok miu p.
 Proof.
-  intros I H. unfold phase1 in H.
-  destruct (first_pass 4 true miu l) as [[l1 y]| | |] eqn:E1; cbn [bind] in H; try discriminate.
-  destruct (first_pass_spec _ _ _ _ _ I E1) as (I1 & Hy).
+  intros Hm I H. unfold phase1 in H.
+  destruct (first_pass c 4 true miu l) as [[l1 y]| | |] eqn:E1; cbn [bind] in H; try discriminate.
+  destruct (first_pass_spec _ _ _ _ _ Hm I E1) as (I1 & Hy).
   destruct y as [p|]; [inversion H; subst; split; assumption|].
   eapply first_pass_spec; eauto.
 Qed.
@@ -434,25 +484,25 @@ Proof.
 Qed.
 
 (* what one more PDU does to the aggregate when the budget is not negative *)
-Lemma append_fits M agf p : 0 <= M - agf_len agf - 3 -> emitted (M - agf_len agf - 3) p \/ isack p ->
+Lemma append_fits M agf p : 0 <= M - agf_len agf - 3 -> (len (body p) <= M - agf_len agf - 3 \/ plen p <= 3) ->
   agf_info (agf ++ [p]) <= M.
 Proof.
   intros Hm H. rewrite agf_info_snoc. unfold agf_len in *. pose proof (hsize_range p).
-  destruct H as [(_ & [H|H])|(_ & H)]; unfold plen in *; lia.
+  destruct H as [H|H]; unfold plen in *; lia.
 Qed.
 
-(* the aggregate only grows, by PDUs that satisfy P, and once it has grown it fits *)
+(* the aggregate only grows, by PDUs that satisfy Q, and once it has grown it fits *)
 Definition grown (M : Z) (agf agf' : list pdu) : Prop :=
-  exists ext, agf' = agf ++ ext /\ Forall P ext /\ (ext = [] \/ agf_info agf' <= M).
+  exists ext, agf' = agf ++ ext /\ Forall Q ext /\ (ext = [] \/ agf_info agf' <= M).
 Lemma grown_refl M a : grown M a a.
 Proof. exists []. rewrite app_nil_r. auto. Qed.
-Lemma grown_step M a p a' : P p -> agf_info (a ++ [p]) <= M -> grown M (a ++ [p]) a' -> grown M a a'.
+Lemma grown_step M a p a' : Q p -> agf_info (a ++ [p]) <= M -> grown M (a ++ [p]) a' -> grown M a a'.
 Proof.
   intros Hp Hf (ext & -> & He & Hc). exists (p :: ext). rewrite <- app_assoc. split; [reflexivity|].
   split; [constructor; assumption|]. right. destruct Hc as [->|Hc]; [rewrite app_nil_r; exact Hf|].
   rewrite <- app_assoc in Hc. exact Hc.
 Qed.
-Lemma grown_trans M a b c : grown M a b -> grown M b c -> grown M a c.
+Lemma grown_trans M a b d : grown M a b -> grown M b d -> grown M a d.
 Proof.
   intros (e1 & -> & H1 & C1) (e2 & -> & H2 & C2). exists (e1 ++ e2). rewrite app_assoc. split; [reflexivity|].
   split; [apply Forall_app; split; assumption|].
@@ -462,38 +512,39 @@ Qed.
 
 Lemma agg_for_spec M l : forall agf miu dn l' agf' miu' dn', Forall obj_inv l ->
   miu = M - agf_len agf - 3 -> 0 <= miu ->
-  agg_for 4 M 0 l agf miu dn = Ok (l', agf', miu', dn') ->
+  agg_for c 4 M (cfg_icv c) l agf miu dn = Ok (l', agf', miu', dn') ->
   Forall obj_inv l' /\ miu' = M - agf_len agf' - 3 /\ grown M agf agf'.
 Proof.
   induction l as [|o l IH]; intros agf miu dn l' agf' miu' dn' I Hm H0 H; cbn [agg_for] in H.
   - inversion H; subst. split; [constructor|]. split; [reflexivity|apply grown_refl].
   - inversion I as [|? ? Io Il]; subst miu.
-    destruct (obj_dequeue 4 (M - agf_len agf - 3) 0 o) as [[o' y]| | |] eqn:Eo; cbn [bind] in H; try discriminate.
-    destruct (obj_dequeue_spec _ _ _ _ _ (Z.le_refl 0) Io Eo) as (Io' & Hy).
+    destruct (obj_dequeue 4 (M - agf_len agf - 3) (cfg_icv c) o) as [[o' y]| | |] eqn:Eo; cbn [bind] in H; try discriminate.
+    destruct (obj_dequeue_spec _ _ _ _ _ Io Eo) as (Io' & Hy).
     destruct y as [p|].
-    + specialize (Hy p eq_refl). pose proof (append_fits M agf p H0 (or_introl Hy)) as Hfit. destruct Hy as [Hp _].
-      destruct (M - agf_len (agf ++ [p]) - 3 <? 0) eqn:Em.
+    + destruct (enc_agg _ _ (Hy p eq_refl)) as (Hq & Hsz). set (q := maybe_encrypt c p) in *.
+      pose proof (append_fits M agf q H0 Hsz) as Hfit.
+      destruct (M - agf_len (agf ++ [q]) - 3 <? 0) eqn:Em.
       * inversion H; subst. split; [constructor; assumption|]. split; [reflexivity|].
         eapply grown_step; eauto. apply grown_refl.
-      * destruct (agg_for 4 M 0 l (agf ++ [p]) (M - agf_len (agf ++ [p]) - 3) false) as [[[[r' a] m] d]| | |] eqn:Er;
+      * destruct (agg_for c 4 M (cfg_icv c) l (agf ++ [q]) (M - agf_len (agf ++ [q]) - 3) false) as [[[[r' a] m] d]| | |] eqn:Er;
           cbn [bind] in H; try discriminate. inversion H; subst.
-        assert (H1 : 0 <= M - agf_len (agf ++ [p]) - 3) by lia.
+        assert (H1 : 0 <= M - agf_len (agf ++ [q]) - 3) by lia.
         destruct (IH _ _ _ _ _ _ _ Il eq_refl H1 Er) as (A & B & C).
         split; [constructor; assumption|]. split; [exact B|]. eapply grown_step; eauto.
-    + destruct (agg_for 4 M 0 l agf (M - agf_len agf - 3) dn) as [[[[r' a] m] d]| | |] eqn:Er; cbn [bind] in H; try discriminate.
+    + destruct (agg_for c 4 M (cfg_icv c) l agf (M - agf_len agf - 3) dn) as [[[[r' a] m] d]| | |] eqn:Er; cbn [bind] in H; try discriminate.
       inversion H; subst. destruct (IH _ _ _ _ _ _ _ Il eq_refl H0 Er) as (A & B & C).
       split; [constructor; assumption|]. split; assumption.
 Qed.
 
 Lemma agg_loop_spec M fuel : forall l agf miu l' agf' miu', Forall obj_inv l -> miu = M - agf_len agf - 3 ->
-  agg_loop fuel fixed M 0 l agf miu = Ok (l', agf', miu') ->
+  agg_loop fuel c fixed M (cfg_icv c) l agf miu = Ok (l', agf', miu') ->
   Forall obj_inv l' /\ miu' = M - agf_len agf' - 3 /\ grown M agf agf'.
 Proof.
   induction fuel as [|f IH]; intros l agf miu l' agf' miu' I Hm H; cbn [agg_loop] in H; [discriminate|].
   cbn [agf_guard fixed andb sd_thr] in H.
   destruct (miu <? 0) eqn:E0.
   - inversion H; subst. split; [exact I|]. split; [reflexivity|apply grown_refl].
-  - destruct (agg_for 4 M 0 l agf miu true) as [[[[l1 a1] m1] d1]| | |] eqn:Ef; cbn [bind] in H; try discriminate.
+  - destruct (agg_for c 4 M (cfg_icv c) l agf miu true) as [[[[l1 a1] m1] d1]| | |] eqn:Ef; cbn [bind] in H; try discriminate.
     assert (H1 : 0 <= miu) by lia.
     destruct (agg_for_spec _ _ _ _ _ _ _ _ _ I Hm H1 Ef) as (A & B & C).
     destruct ((m1 <? 0) || d1).
@@ -511,7 +562,8 @@ Proof.
     destruct (skind_eqb (obj_mode o) Dlc).
     + destruct (obj_sendack o) as [o' y] eqn:Eo. destruct (obj_sendack_spec _ _ _ Io Eo) as (Io' & Hy).
       destruct y as [p|].
-      * specialize (Hy p eq_refl). pose proof (append_fits M agf p H0 (or_intror Hy)) as Hfit. destruct Hy as [Hp _].
+      * destruct (Hy p eq_refl) as (Hp & Hl & Hu). pose proof (Q_plain p Hp Hu) as Hq.
+        assert (Hfit : agf_info (agf ++ [p]) <= M) by (apply append_fits; [exact H0|right; lia]).
         destruct (M - agf_len (agf ++ [p]) - 3 <? 0) eqn:Em.
         -- inversion H; subst. split; [constructor; assumption|]. eapply grown_step; eauto. apply grown_refl.
         -- destruct (ack_for M l (agf ++ [p])) as [r' a] eqn:Er. inversion H; subst.
@@ -524,23 +576,27 @@ Proof.
 Qed.
 
 (* ---- the collector ---- *)
-Theorem collect_spec c st st' f : 1 <= send_miu c -> Forall obj_inv st -> collect c st = Ok (st', f) ->
-  Forall obj_inv st' /\ Forall P (frame_pdus f) /\ frame_info f <= send_miu c.
+Theorem collect_spec st st' f : 1 <= send_miu c -> Forall obj_inv st -> collect c st = Ok (st', f) ->
+  Forall obj_inv st' /\ Forall Q (frame_pdus f) /\ frame_info f <= frame_limit c f.
 Proof.
   intros HM I H. unfold collect, collect_v in H. cbn [sd_thr fixed] in H. set (M := send_miu c) in *.
-  destruct (phase1 4 M st) as [[l1 y]| | |] eqn:E1; cbn [bind] in H; try discriminate.
-  destruct (phase1_spec _ _ _ _ I E1) as (I1 & Hy).
+  destruct Hcipher as [Hicv _].
+  destruct (phase1 c 4 M st) as [[l1 y]| | |] eqn:E1; cbn [bind] in H; try discriminate.
+  destruct (phase1_spec _ _ _ _ HM I E1) as (I1 & Hy).
   (* the part after the first PDU p, which does not fill the MIU *)
-  assert (Hrest : forall l2 p, Forall obj_inv l2 -> P p -> len (body p) <= M ->
+  assert (Hrest : forall l2 p, Forall obj_inv l2 -> Q p -> len (body p) <= M ->
     (if negb (send_agf c) then Ok (l2, FOne p) else
-       do z <- agg_loop (collect_fuel c) fixed M 0 l2 [p] (M - agf_len [p] - 3);
+       do z <- agg_loop (collect_fuel c) c fixed M (cfg_icv c) l2 [p] (M - agf_len [p] - 3);
        let '(l3, agf1, miu1) := z in
        let '(l4, agf2) := if miu1 >=? 0 then ack_for M l3 agf1 else (l3, agf1) in
        match agf2 with [] => Crash IndexErr | [q] => Ok (l4, FOne q) | _ => Ok (l4, FAgf agf2) end) = Ok (st', f) ->
-    Forall obj_inv st' /\ Forall P (frame_pdus f) /\ frame_info f <= M).
-  { clear H. intros l2 p I2 Hp Hl H. destruct (negb (send_agf c)).
-    { inversion H; subst. split; [exact I2|]. split; [constructor; [exact Hp|constructor]|exact Hl]. }
-    destruct (agg_loop (collect_fuel c) fixed M 0 l2 [p] (M - agf_len [p] - 3)) as [[[l3 agf1] miu1]| | |] eqn:El;
+    Forall obj_inv st' /\ Forall Q (frame_pdus f) /\ frame_info f <= frame_limit c f).
+  { clear H. intros l2 p I2 Hp Hl H.
+    assert (Hone : frame_info (FOne p) <= frame_limit c (FOne p)).
+    { unfold frame_limit. cbn [frame_info]. fold M. destruct (is_ui_i p); lia. }
+    destruct (negb (send_agf c)).
+    { inversion H; subst. split; [exact I2|]. split; [constructor; [exact Hp|constructor]|exact Hone]. }
+    destruct (agg_loop (collect_fuel c) c fixed M (cfg_icv c) l2 [p] (M - agf_len [p] - 3)) as [[[l3 agf1] miu1]| | |] eqn:El;
       cbn [bind] in H; try discriminate.
     destruct (agg_loop_spec _ _ _ _ _ _ _ _ I2 eq_refl El) as (I3 & Hm1 & G1).
     assert (Hfin : exists l4 agf2, (if miu1 >=? 0 then ack_for M l3 agf1 else (l3, agf1)) = (l4, agf2) /\
@@ -552,21 +608,22 @@ Proof.
       - exists l3, agf1. auto. }
     destruct Hfin as (l4 & agf2 & Ef & I4 & (ext & -> & He & Hc)). rewrite Ef in H.
     cbn [app] in H. destruct ext as [|q ext].
-    - inversion H; subst. split; [exact I4|]. split; [constructor; [exact Hp|constructor]|exact Hl].
+    - inversion H; subst. split; [exact I4|]. split; [constructor; [exact Hp|constructor]|exact Hone].
     - inversion H; subst. split; [exact I4|]. split; [constructor; assumption|].
-      destruct Hc as [Hc|Hc]; [discriminate|exact Hc]. }
-  assert (Hem : forall p, emitted M p -> P p /\ len (body p) <= M).
-  { intros p (Hp & [Hl|Hl]); split; try assumption. unfold plen in Hl. pose proof (hsize_range p). lia. }
+      unfold frame_limit. destruct Hc as [Hc|Hc]; [discriminate|]. cbn [frame_info]. fold M. cbn [app] in Hc. lia. }
   destruct y as [p|].
-  - destruct (Hem p (Hy p eq_refl)) as (Hp & Hl).
-    destruct (plen p - hsize p >=? M).
-    + inversion H; subst. split; [exact I1|]. split; [constructor; [exact Hp|constructor]|exact Hl].
-    + eapply Hrest; eauto.
+  - destruct (Hy p eq_refl) as (Hp & Hl).
+    destruct (plen p - hsize p >=? M) eqn:Ee.
+    + inversion H; subst. split; [exact I1|]. split; [constructor; [exact Hp|constructor]|].
+      unfold frame_limit. cbn [frame_info]. fold M. exact Hl.
+    + assert (Hb : len (body p) <= M) by (unfold plen in Ee; lia).
+      exact (Hrest l1 p I1 Hp Hb H).
   - destruct (ack_pass l1) as [l2 y2] eqn:Ea. destruct (ack_pass_spec _ _ _ I1 Ea) as (I2 & Hy2).
     destruct y2 as [p|].
-    + destruct (Hy2 p eq_refl) as (Hp & Hl). eapply Hrest; eauto.
-      unfold plen in Hl. pose proof (hsize_range p). pose proof (len_nonneg (body p)). lia.
-    + inversion H; subst. split; [exact I2|]. split; [constructor|cbn [frame_info]; lia].
+    + destruct (Hy2 p eq_refl) as (Hp & Hl & Hu).
+      assert (Hb : len (body p) <= M) by (unfold plen in Hl; pose proof (hsize_range p); pose proof (len_nonneg (body p)); lia).
+      exact (Hrest l2 p I2 (Q_plain p Hp Hu) Hb H).
+    + inversion H; subst. split; [exact I2|]. split; [constructor|]. unfold frame_limit. cbn [frame_info]. lia.
 Qed.
 End Inv.
 
@@ -598,23 +655,43 @@ Lemma conn_stable cm k s s' : peer s' = peer s -> addr s' = addr s -> busy s' = 
   (rack s' = rack s \/ rack s' = (rack s + confs s) mod 16) -> conn_ok cm k s -> conn_ok cm k s'.
 Proof. unfold conn_ok. intros -> -> _ -> _ H. exact H. Qed.
 
-Theorem collect_bound_ok c cm st st' f : 1 <= send_miu c -> queued_ok (send_miu c) cm st -> collect c st = Ok (st', f) ->
-  queued_ok (send_miu c) cm st' /\ Forall (pay_ok (send_miu c) cm) (frame_pdus f) /\ frame_info f <= send_miu c.
+(* the PDUs of a frame: as queued, or - UI / I under secure data transfer - longer by the ICV *)
+Definition pay_okx (M x : Z) (cm : Z -> Z -> Z) (p : pdu) : Prop :=
+  (pt p = PT_UI -> len (body p) <= M + x) /\ (pt p = PT_I -> len (body p) <= cm (da p) (sa p) + x).
+Lemma pay_plain M x cm p : 0 <= x -> pay_ok M cm p -> pay_okx M x cm p.
+Proof. intros Hx [A B]. split; intro H; [specialize (A H)|specialize (B H)]; lia. Qed.
+Lemma pay_enc M cm c p : cipher_ok c -> pay_ok M cm p -> pay_okx M (cfg_icv c) cm (maybe_encrypt c p).
 Proof.
-  intros HM I H.
-  exact (collect_spec (pay_ok (send_miu c) cm) (conn_ok cm) (pay_nr _ cm) (pay_ack _ cm) (pay_snl _ cm) (conn_stable cm)
-           c st st' f HM I H).
+  intros [Hx Hl] Hp. unfold maybe_encrypt, cfg_icv in *. destruct (sec c) as [k|] eqn:Es; [|apply pay_plain; [lia|exact Hp]].
+  destruct (is_ui_i p); [|apply pay_plain; assumption].
+  destruct Hp as [A B]. unfold pay_okx. cbn [pt da sa body]. rewrite (Hl k eq_refl).
+  split; intro H; [specialize (A H)|specialize (B H)]; lia.
+Qed.
+
+Theorem collect_bound_ok c cm st st' f : cipher_ok c -> 1 <= send_miu c -> queued_ok (send_miu c) cm st ->
+  collect c st = Ok (st', f) ->
+  queued_ok (send_miu c) cm st' /\ Forall (pay_okx (send_miu c) (cfg_icv c) cm) (frame_pdus f) /\
+  frame_info f <= frame_limit c f.
+Proof.
+  intros Hc HM I H.
+  exact (collect_spec (pay_ok (send_miu c) cm) (pay_okx (send_miu c) (cfg_icv c) cm) (conn_ok cm) c
+           (pay_nr _ cm) (pay_ack _ cm) (pay_snl _ cm) (conn_stable cm) Hc
+           (fun p Hp => pay_enc _ cm c p Hc Hp) (fun p Hp _ => pay_plain _ _ cm p (proj1 Hc) Hp) st st' f HM I H).
 Qed.
 
 (* the structural part alone is enough for the frame bound *)
 Definition struct_ok (st : list sapobj) : Prop := Forall (obj_inv (fun _ => True) (fun _ _ => True)) st.
-Theorem collect_bound_struct c st st' f : 1 <= send_miu c -> struct_ok st -> collect c st = Ok (st', f) ->
-  struct_ok st' /\ frame_info f <= send_miu c.
+Theorem collect_bound_struct c st st' f : cipher_ok c -> 1 <= send_miu c -> struct_ok st -> collect c st = Ok (st', f) ->
+  struct_ok st' /\ frame_info f <= frame_limit c f.
 Proof.
-  intros HM I0 H.
-  destruct (collect_spec (fun _ => True) (fun _ _ => True) (fun _ _ _ _ _ => I) (fun _ _ _ => I) (fun _ _ => I)
-              (fun _ _ _ _ _ _ _ _ _ => I) c st st' f HM I0 H) as (A & _ & B); auto.
+  intros Hc HM I0 H.
+  destruct (collect_spec (fun _ => True) (fun _ => True) (fun _ _ => True) c (fun _ _ _ _ _ => I) (fun _ _ _ => I) (fun _ _ => I)
+              (fun _ _ _ _ _ _ _ _ _ => I) Hc (fun _ _ => I) (fun _ _ _ => I) st st' f HM I0 H) as (A & _ & B); auto.
 Qed.
+Lemma cipher_ok_none M a : cipher_ok (mkCfg M a None).
+Proof. split; [cbn; lia|intros k [=]]. Qed.
+Lemma frame_limit_none M a f : frame_limit (mkCfg M a None) f = M.
+Proof. unfold frame_limit, cfg_icv. cbn [send_miu sec]. destruct f as [|p|l]; try destruct (is_ui_i p); lia. Qed.
 
 (* ---- C2: send()/sendto() refuse what is too large, and keep queued_ok ---- *)
 Lemma ldl_sendto_spec M s msg dest s' : ldl_sendto M s msg dest = Ok s' ->
@@ -698,19 +775,19 @@ Proof.
   all: try (intros; discriminate).
 Qed.
 (* 40 pending SDRES at MIU 130: `while miu_size > 0` packs 33 of them, information field 132 *)
-Lemma orig_refuted_sdres : info_of (collect_v orig (mkCfg 130 false) ex_state1) = 132 /\
-                           info_of (collect_v fixed (mkCfg 130 false) ex_state1) = 128.
+Lemma orig_refuted_sdres : info_of (collect_v orig (mkCfg 130 false None) ex_state1) = 132 /\
+                           info_of (collect_v fixed (mkCfg 130 false None) ex_state1) = 128.
 Proof. vm_compute. split; reflexivity. Qed.
 (* MIU 128, aggregation on: UI with 126 bytes then a "necessary" RR: aggregate of 135 bytes *)
-Lemma orig_refuted_agf : info_of (collect_v orig (mkCfg 128 true) ex_state2) = 135 /\
-                         info_of (collect_v fixed (mkCfg 128 true) ex_state2) = 126.
+Lemma orig_refuted_agf : info_of (collect_v orig (mkCfg 128 true None) ex_state2) = 135 /\
+                         info_of (collect_v fixed (mkCfg 128 true None) ex_state2) = 126.
 Proof. vm_compute. split; reflexivity. Qed.
 Theorem orig_bound_refuted : exists c cm st st' f, 128 <= send_miu c <= 2175 /\ queued_ok (send_miu c) cm st /\
   collect_v orig c st = Ok (st', f) /\ send_miu c < frame_info f.
 Proof.
-  destruct (collect_v orig (mkCfg 130 false) ex_state1) as [[st' f]| | |] eqn:E;
+  destruct (collect_v orig (mkCfg 130 false None) ex_state1) as [[st' f]| | |] eqn:E;
     try (exfalso; assert (H := proj1 orig_refuted_sdres); rewrite E in H; discriminate).
-  exists (mkCfg 130 false), (fun _ _ => 128), ex_state1, st', f. cbn [send_miu].
+  exists (mkCfg 130 false None), (fun _ _ => 128), ex_state1, st', f. cbn [send_miu].
   split; [lia|]. split; [apply ex_states_ok|]. split; [exact E|].
   assert (H := proj1 orig_refuted_sdres). rewrite E in H. cbn [info_of] in H. lia.
 Qed.
